@@ -166,6 +166,13 @@ class C05Scenario(ChangeScenario):
                 own_rv[(p['op'], oname)] = max(own_rv.get((p['op'], oname), 0), post_rv[p['rid']])
                 continue
             if k == 'call' and p['id'] == 'ev':
+                wire = p.get('evraw')
+                if wire and (wire.get('metadata') or {}).get('resourceVersion') != (p['raw'].get('metadata') or {}).get('resourceVersion'):
+                    # "classified from the object's state alone": the state an event is judged by is the state the event brought
+                    out.append(self.viol(env, 'event-judged-by-another-state', f"t={t}: the event of version {(wire.get('metadata') or {}).get('resourceVersion')} "
+                                                                               f"(marked for deletion: {'deletionTimestamp' in (wire.get('metadata') or {})}) is handled with the body of version "
+                                                                               f"{(p['raw'].get('metadata') or {}).get('resourceVersion')}", clause='one-cause'))
+                    p = dict(p, raw=wire)      # the reference classifies the event that arrived
                 current[(p['op'], p['uid'])] = p
                 sights[(p['op'], p['uid'])] = sights.get((p['op'], p['uid']), 0) + 1
                 first_type.setdefault((p['op'], p['uid']), p.get('etype'))
@@ -315,6 +322,18 @@ def run(tier: str, seed: int) -> CheckResult:
             hist.append(build(h, False, 6.0, False, other_kind_handlers=other, delays=False, early_user=False, time_dev=False))
     # the same classification for a ReplicaSet owned by a Deployment (kopf keeps its last-handled state under another annotation name there)
     hist += [build(h, False, 6.0, pre, rs=True, delays=False, early_user=False, time_dev=False) for pre in (False, True) for h in histories(2, False)]
+    # a kind with a daemon (the framework keeps a long-lived body for it) and a raw-event handler whose patch changes nothing from the second
+    # event on: the version such a PATCH returns never comes back through the watch, the operator waits for it for the whole consistency
+    # timeout - and the events that arrive meanwhile (a deletion, edits) are newer than what it waits for
+    for tail in ([('delete', 'a')], [('spec', 'a', 3)], [('label', 'a', 'l', 'v'), ('delete', 'a')], [('status', 'a', 7), ('delete', 'a')], [('spec', 'a', 3), ('spec', 'a', 2)]):
+        for gap in (1.0, 2.0, 4.5, 6.0):
+            sc = build([], False, 6.0, False, delays=False, early_user=False, time_dev=False)
+            params = dict(sc.params)
+            params['handlers'] = [dict(h, script=['ok+seen']) if h['id'] == 'ev' else (dict(h, script=['ok']) if h['id'] in ('u1', 'd1') else h) for h in params['handlers']] + \
+                                 [dict(id='dm', on='daemon', reaction='obeys')]
+            params['user'] = [(1.0, 'create', 'a'), (7.0, 'spec', 'a', 2)] + [(7.0 + gap * (i + 1), *a) for i, a in enumerate(tail)]
+            params['horizon'] = 7.0 + gap * len(tail) + 20.0
+            hist.append(C05Scenario(**params))
     timing = [build(h, bare, 2.0, pre, kills=True) for bare in (True, False) for pre in (False, True) for h in histories(1 if tier == 'quick' else 2, bare)]
     if tier == 'quick':
         groups = [('histories', hist, 0, 60.0), ('timing+kills', timing, 1, 40.0)]
